@@ -186,3 +186,32 @@ func VerifC12_CancelStore() {
 	verif.Assert("never_invoked_twice_by_one_cancel", calledA <= 1 && calledB <= 1)
 	verif.Assert("len_counts_registrations", !registeredB || store.Len() == 2)
 }
+
+// VerifC12_StoreCancelledMidFlight: the cancel store handed to the runner is
+// cancelled from outside while the action is in flight; the action observes
+// its stop signal and returns (swallowing it or not): the runner must report
+// the cancellation, not the action's own result.
+func VerifC12_StoreCancelledMidFlight() {
+	store := NewCancelFunctionsStore()
+	swallow := verif.Bool("actionSwallowsTheCancellation")
+	viaGoroutine := verif.Bool("cancelFromAnotherGoroutine")
+	sawDone := false
+	err := RunActionWithTimeoutAndCancelStore(context.Background(), 5*vTimeout, store, func(ctx context.Context) error {
+		if viaGoroutine {
+			go store.Cancel()
+		} else {
+			store.Cancel()
+		}
+		select {
+		case <-ctx.Done():
+			sawDone = true
+		case <-time.After(20 * vTimeout):
+		}
+		if swallow {
+			return nil
+		}
+		return ctx.Err()
+	})
+	verif.Assert("action_observed_its_stop_signal", sawDone)
+	verif.Assert("cancelled_store_is_reported_as_cancellation", err != nil && commonerrors.Any(err, commonerrors.ErrCancelled, commonerrors.ErrTimeout))
+}
